@@ -112,10 +112,17 @@ def to_vector(name, flat):
 
 
 def perturb(rng, v):
-    """a nearby vector: every continuous parameter multiplied by exp(N(0, 0.2)); counts unchanged"""
+    """a nearby vector: every natural parameter (shape - 1, rate), span*rate and fixed age multiplied by
+    exp(N(0, 0.2)); counts unchanged"""
     w = {}
     for k, x in v.items():
-        w[k] = x if k == "y" else float(x * np.exp(0.2 * rng.normal()))
+        f = float(np.exp(0.2 * rng.normal()))
+        if k == "y":
+            w[k] = x
+        elif k in ("a_i", "a_j"):
+            w[k] = 1.0 + (x - 1.0) * f          # the natural parameter shape - 1 is what EP adds and subtracts
+        else:
+            w[k] = x * f
     if "t_i" in w and "t_j" in w and not w["t_i"] > w["t_j"]:
         w["t_i"], w["t_j"] = v["t_i"], v["t_j"]
     return w
@@ -176,8 +183,9 @@ def call(name, args):
     return kc.run_real(name, args)
 
 
-def one_vector(o, sec, v, res):
-    """All clauses of C18 for the kernels of section `sec` on the argument vector `v`."""
+def one_vector(o, sec, v, res, mut=True):
+    """All clauses of C18 for the kernels of section `sec` on the argument vector `v`; the mutation-age kernels are
+    included only when `mut` (the vector was handed to a mutation wrapper)."""
     y = v.get("y", 1.0)
     mu = v.get("mu")
 
@@ -207,12 +215,12 @@ def one_vector(o, sec, v, res):
             tr = ko.rootward_true(tj, a_i, b_i, y, mu) if mu + b_i > 0 else None
             if tj == 0.0:
                 o.stats["closed_form"] += 1
-                if rel(p[1], a_i - 1 + y) > EXACT * max(1.0, 1 / abs(a_i - 1 + y) if a_i - 1 + y else 1.0) or rel(p[2], b_i + mu) > EXACT:
+                if abs(p[1] - (a_i - 1 + y)) > EXACT * max(1.0, a_i + y) or rel(p[2], b_i + mu) > EXACT:
                     o.viol("conjugate-not-exact:rootward_projection", f"rootward_projection at t_j=0 {tuple(pi + pij)} returned {p[1:]}, expected ({a_i - 1 + y}, {b_i + mu})", "rootward_projection", [tj] + pi + pij)
             elif tr is not None:
                 o.acc("rootward_moments", "mn", m[1], tr[0], args, small)
                 res.nontrivial.add(common.canon_key(["rootward"] + [f2h(x) for x in args]))
-            if y >= 1:
+            if mut and y >= 1:
                 mm = run("mutation_rootward_moments", args)
                 pm = run("mutation_rootward_projection", [tj] + pi + pij)
                 if mm is not None and pm is not None and mm[0] == mm[0]:
@@ -238,7 +246,7 @@ def one_vector(o, sec, v, res):
             if tr is not None:
                 o.acc("leafward_moments", "mn", m[1], tr[0], args, small)
                 res.nontrivial.add(common.canon_key(["leafward"] + [f2h(x) for x in args]))
-            if y >= 1:
+            if mut and y >= 1:
                 mm = run("mutation_leafward_moments", args)
                 pm = run("mutation_leafward_projection", [t_i] + pj + pij)
                 if mm is not None and pm is not None and mm[0] == mm[0]:
@@ -268,7 +276,7 @@ def one_vector(o, sec, v, res):
                     o.acc("moments", "mn_i", m[1], tr[0], args, small, cancel=(kappa > 2 and rel(m[3], tr[2]) <= ACC))
                     o.acc("moments", "mn_j", m[3], tr[2], args, small)
                     res.nontrivial.add(common.canon_key(["moments"] + [f2h(x) for x in args]))
-                if y >= 1:
+                if mut and y >= 1:
                     mm = run("mutation_moments", args)
                     pm = run("mutation_gamma_projection", pi + pj + pij)
                     if mm is not None and pm is not None and mm[0] == mm[0]:
@@ -291,7 +299,7 @@ def one_vector(o, sec, v, res):
                           cancel=(kappa > 2 and rel(m[3], tr[2]) <= ACC))
                     o.acc("unphased_moments", "mn_j", m[3], tr[2], args, small)
                     res.nontrivial.add(common.canon_key(["unphased"] + [f2h(x) for x in args]))
-            if y >= 1:       # a dated mutation's block carries at least that mutation
+            if mut and y >= 1:       # a dated mutation's block carries at least that mutation
                 mm = run("mutation_unphased_moments", args)
                 pm = run("mutation_unphased_projection", pi + pj + pij)
                 if mm is not None and pm is not None and mm[1] == mm[1]:
@@ -312,7 +320,7 @@ def one_vector(o, sec, v, res):
             if tr is not None:
                 o.acc("sideways_moments", "mn", m[1], tr[0], args, small)
                 res.nontrivial.add(common.canon_key(["sideways"] + [f2h(x) for x in args]))
-        if y >= 1:
+        if mut and y >= 1:
             mm = run("mutation_sideways_moments", args)
             pm = run("mutation_sideways_projection", [t_i] + pj + pij)
             if mm is not None and pm is not None and mm[1] == mm[1]:
@@ -329,7 +337,7 @@ def one_vector(o, sec, v, res):
             o.stats["closed_form"] += 1
             if abs(p[1] - (a_i - 1 + y)) > EXACT * max(1.0, a_i + y) or rel(p[2], b_i + 2 * mu) > EXACT:
                 o.viol("conjugate-not-exact:twin_projection", f"twin_projection{tuple(pi + pij)} returned {p[1:]}, expected ({a_i - 1 + y}, {b_i + 2 * mu})", "twin_projection", pi + pij)
-        pm = run("mutation_twin_projection", pi + pij)
+        pm = run("mutation_twin_projection", pi + pij) if mut else None
         if pm is not None and check_projection(o, "mutation_twin_projection", pi + pij, pm, 1, phase=True):
             o.stats["closed_form"] += 1
             s, r = a_i + y, b_i + 2 * mu
@@ -368,10 +376,11 @@ def oracle_on_population(o, pop, rng, res):
             v = to_vector(name, flat)
             if not all(math.isfinite(x) for x in v.values()):
                 continue
+            mut = name.startswith("mutation_")
             o.src = "recorded"
-            one_vector(o, SECTION[name], v, res)
+            one_vector(o, SECTION[name], v, res, mut)
             o.src = "perturbed"
-            one_vector(o, SECTION[name], perturb(rng, v), res)
+            one_vector(o, SECTION[name], perturb(rng, v), res, mut)
     # the block kernel between two fixed parents is reached only with unphased singletons below two fixed nodes:
     # when the recorded runs did not reach it, exercise its closed form on pairs of recorded fixed ages
     ages = [f[0] for n in ("rootward_projection", "leafward_projection", "sideways_projection") for f in pop["vectors"].get(n, []) if f[0] > 0]
